@@ -131,6 +131,23 @@ func (e *Engine) verifyContract(c *Contract) (res *UnitResult) {
 			}
 		}
 	}
+	// declared write footprint
+	mods := map[string]string{}
+	for _, m := range c.Modifies {
+		if m == "*" {
+			mods["*"] = "all"
+			continue
+		}
+		fresh := strings.HasPrefix(m, "fresh ")
+		for _, k := range x.placeKeys(pkg, m) {
+			if fresh {
+				mods[k] = "fresh"
+			} else {
+				mods[k] = "all"
+			}
+		}
+	}
+	fr.modsInfo = mods
 	x.entry = st.clone()
 	// requires
 	envIn := &SpecEnv{x: x, pkg: pkg, names: fr.specNames, st: st, old: x.entry, bound: map[string]bool{}}
@@ -205,22 +222,6 @@ func (e *Engine) verifyContract(c *Contract) (res *UnitResult) {
 		}
 		u.oblige("ensures:"+lab, "ensures", en.Src, fr.pos(fd.Pos()), exit.pc, t)
 	}
-	// frame
-	mods := map[string]string{}
-	for _, m := range c.Modifies {
-		if m == "*" {
-			mods["*"] = "all"
-			continue
-		}
-		fresh := strings.HasPrefix(m, "fresh ")
-		for _, k := range x.placeKeys(pkg, m) {
-			if fresh {
-				mods[k] = "fresh"
-			} else {
-				mods[k] = "all"
-			}
-		}
-	}
 	if _, all := mods["*"]; !all {
 		var keys []string
 		for k := range exit.heap {
@@ -272,10 +273,26 @@ func (e *Engine) verifyLemma(c *Contract, x *Exec) {
 			u.fact(tf)
 		}
 		names[p.Name] = v
+		u.inputs = append(u.inputs, ModelVar{Name: p.Name, Term: v.T, Sort: v.S, Ty: ty})
 	}
 	env := &SpecEnv{x: x, pkg: pkg, names: names, st: st, old: x.entry, bound: map[string]bool{}}
 	for _, r := range c.Requires {
 		u.fact(env.Bool(r.Expr))
+	}
+	for _, use := range c.UsesLemmas {
+		lem := e.findLemma(pkg, use.Fun)
+		if lem == nil {
+			specFail("unknown lemma %s", use.Fun)
+		}
+		sub := env.child()
+		sub.pkg = e.pkgs[lem.Pkg]
+		nm := map[string]Val{}
+		for i, p := range lem.Params {
+			nm[p.Name] = env.Eval(use.Args[i])
+		}
+		sub.names = nm
+		u.fact(lemmaInstance(sub, lem))
+		x.usedContracts[lem.Pkg+"::lemma:"+lem.Name] = lem
 	}
 	if c.Induct != "" {
 		iv, ok := names[c.Induct]
